@@ -175,3 +175,42 @@ Print Assumptions C18_val_all_value.
 Theorem C18_val_all_num_vars : forall c n, n < 65536 -> val_num_vars (val_all c n) = n.
 Proof. exact val_all_num_vars. Qed.
 Print Assumptions C18_val_all_num_vars.
+
+(* ---- gaps closed (Proofs/Gaps2Card.v) ---- *)
+From BddVerif Require Import Model.Count Model.Select Proofs.Gaps2Card.
+(* the brute-force count that instantiates cmp_cardinality is the library's exact_cardinality on every valid diagram *)
+Theorem C18_card_bf_eq_exact : forall b, wf b -> exact_cardinality b = card_bf b.
+Proof. exact card_bf_eq_exact. Qed.
+Print Assumptions C18_card_bf_eq_exact.
+Theorem C18_cmp_cardinality_by_exact_count : forall a b, wf a -> wf b ->
+  cmp_cardinality a b = cmp_cardinality_with exact_cardinality a b /\
+  (cmp_cardinality a b = OLt <-> exact_cardinality a < exact_cardinality b) /\
+  (cmp_cardinality a b = OEq <-> exact_cardinality a = exact_cardinality b) /\
+  (cmp_cardinality a b = OGt <-> exact_cardinality b < exact_cardinality a).
+Proof. exact cmp_cardinality_by_exact_count. Qed.
+Print Assumptions C18_cmp_cardinality_by_exact_count.
+Theorem C18_cmp_cardinality_strict_by_exact_count : forall a b, wf a -> wf b ->
+  cmp_cardinality_strict a b = cmp_cardinality_strict_with exact_cardinality a b /\
+  (cmp_cardinality_strict a b = None <-> nvars a <> nvars b) /\
+  (cmp_cardinality_strict a b = Some OLt <-> nvars a = nvars b /\ exact_cardinality a < exact_cardinality b) /\
+  (cmp_cardinality_strict a b = Some OEq <-> nvars a = nvars b /\ exact_cardinality a = exact_cardinality b) /\
+  (cmp_cardinality_strict a b = Some OGt <-> nvars a = nvars b /\ exact_cardinality b < exact_cardinality a).
+Proof. exact cmp_cardinality_strict_by_exact_count. Qed.
+Print Assumptions C18_cmp_cardinality_strict_by_exact_count.
+
+(* Bdd::from(valuation) converts back: is_valuation answers true and every witness/selector function returns v itself;
+   conversely a canonical Bdd accepted by is_valuation is Bdd::from of its witness *)
+Theorem C18_of_valuation_back : forall v,
+  is_valuation (of_valuation v) = Ok true /\
+  sat_witness (of_valuation v) = Ok (Some v) /\
+  first_valuation (of_valuation v) = Ok (Some v) /\
+  last_valuation (of_valuation v) = Ok (Some v) /\
+  most_positive_valuation (of_valuation v) = Ok (Some v) /\
+  most_negative_valuation (of_valuation v) = Ok (Some v) /\
+  forall script, random_valuation (of_valuation v) script = Ok (Some v).
+Proof. exact of_valuation_back. Qed.
+Print Assumptions C18_of_valuation_back.
+Theorem C18_is_valuation_of_valuation : forall b, Canonical b -> is_valuation b = Ok true ->
+  exists v, sat_witness b = Ok (Some v) /\ b = of_valuation v.
+Proof. exact is_valuation_of_valuation. Qed.
+Print Assumptions C18_is_valuation_of_valuation.
